@@ -1,6 +1,7 @@
 package props
 
 import (
+	"os"
 	"strings"
 
 	"golang.org/x/tools/go/ssa"
@@ -31,6 +32,51 @@ func sealScopePkgs(rel string) bool {
 
 func c08() []*Ob {
 	return []*Ob{
+		{Prop: "C08", ID: "C08.6", Engine: "OWN(who-may-create)", Floor: 2,
+			Desc: "a published name is only ever the target of a rename: no os.Create / os.OpenFile(O_CREATE) in packages frac, fracmanager and disk builds its path from consts.IndexFileSuffix or consts.SdocsFileSuffix — the names the loader takes for \"sealing has completed\"; the sealed files are written under their temporary suffixes and renamed after the sync. An index written in place under .index is published before its first byte: a crash or a failed write leaves a torn index that the next start serves, after deleting .meta",
+			Check: func(c *Ctx) {
+				pub := map[string]string{}
+				for _, n := range []string{"IndexFileSuffix", "SdocsFileSuffix"} {
+					if v := constString(c.P.TypesPkg("consts"), n); v != "" {
+						pub[v] = n
+					}
+				}
+				if len(pub) == 0 {
+					c.Undecided("own:create-published:consts", 0, "consts.IndexFileSuffix / SdocsFileSuffix not found")
+					return
+				}
+				n := 0
+				for _, pk := range []string{"frac", "fracmanager", "disk"} {
+					for _, fn := range c.P.FuncsInPkg(pk) {
+						for _, call := range CallsIn(fn, Callee("os.Create", "os.OpenFile", "os.CreateTemp")) {
+							if CallName(call) == "os.OpenFile" {
+								if k, isK := ConstInt(Arg(call, 1)); isK && k&int64(os.O_CREATE) == 0 {
+									continue
+								}
+							}
+							n++
+							bad := ""
+							DerivesFrom(Arg(call, 0), func(v ssa.Value) bool {
+								if sv, ok := ConstString(v); ok {
+									if name, isPub := pub[sv]; isPub {
+										bad = name
+										return true
+									}
+								}
+								return false
+							})
+							if bad == "" {
+								c.Site(call.Pos(), "%s creates a file under a non-published name", FuncName(fn))
+							} else {
+								c.Violation("own:create-published:"+FuncName(fn)+":"+bad, call.Pos(), "%s creates a file directly under consts.%s: the loader takes that name for a completed seal, so the file is published before it is written and synced", FuncName(fn), bad)
+							}
+						}
+					}
+				}
+				if n == 0 {
+					c.Undecided("own:create-published:none", 0, "no file creation found in frac, fracmanager, disk")
+				}
+			}},
 		{Prop: "C08", ID: "C08.1", Engine: "ERRFLOW", Floor: 40,
 			Desc: "no error is swallowed in any function reachable from frac.Seal (static callees, closures, generator callbacks) inside frac, disk, bytespool, packer, zstd, util",
 			Check: func(c *Ctx) {
